@@ -343,3 +343,35 @@ PROPS["C11"] = {
     "level_text": "Bounded model checking of the real SyncList code under a controlled scheduler: every schedule of the atomic operations within the preemption bound is executed; each is checked for linearizability to an unbounded FIFO (Wing-Gong search on the recorded history), conservation, the Len() bounds, quiescent exactness, data races (vector clocks) and deadlock/livelock. Little scalar data is symbolic here: the solver's role is feasibility only; the deciding step is exhaustive schedule exploration within the bound.",
     "level_note": "Trusted: go/ssa, gosym scheduler and race detector, SC atomics. Counterexamples are confirmed natively: the library file is rebuilt (overlay) with sync/atomic and runtime.Gosched redirected to a shim that releases goroutines in the recorded order, so the real code replays the interleaving; races are confirmed with -race; an unconfirmed counterexample is reported as inconclusive.",
 }
+
+# ------------------------------------------------------------------------------------------- C01
+c01 = "vh/c01."
+CC = {"Preempt": 2, "Witnesses": 0, "MaxPaths": 80000000}
+PROPS["C01"] = {
+    "patterns": ["./c01"],
+    "overlay": {"/repo/ringz/zz_verif_hooks.go": "inpkg/ringz_zz.go"},
+    "level": "model_checking",
+    "concurrent": True,
+    "shim": {"files": ["ringz/sync.go"]},
+    "quick": [
+        J(c01 + "Public", threads=2, ops=2, maxreq=1, cfg=CC),
+        J(c01 + "Wrap", threads=2, ops=2, maxreq=1, cfg=CC),
+        J(c01 + "Wrap", threads=3, ops=1, maxreq=2, cfg={"Preempt": 1, "Witnesses": 0, "MaxPaths": 80000000}),
+    ],
+    "thorough": [
+        J(c01 + "Public", threads=2, ops=2, maxreq=3, cfg=CC),
+        J(c01 + "Wrap", threads=2, ops=2, maxreq=2, cfg=CC),
+        J(c01 + "Wrap", threads=3, ops=1, maxreq=2, cfg=CC),
+        J(c01 + "Public", threads=2, ops=3, maxreq=3, cfg=CC),
+        J(c01 + "Public", threads=3, ops=1, maxreq=3, waits=1, cfg=CC),
+        J(c01 + "Wrap", threads=2, ops=3, maxreq=3, cfg=CC),
+        J(c01 + "Wrap", threads=3, ops=2, maxreq=2, cfg=CC),
+        J(c01 + "Wrap", threads=2, ops=2, maxreq=3, nearwrap=1, cfg={"Preempt": 4, "Witnesses": 0, "MaxPaths": 80000000}),
+    ],
+    "bounds": {"quick": "Cap 2 (requests 1..2; Cap 4 for the 3-goroutine job), every rotation and fill; 2 goroutines x 2 operations (public API, counters from 0) and 2x2 (2 preemptions) / 3x1 (1 preemption) operations from an arbitrary invariant state whose absolute 32-bit head counter is symbolic (all 2^32 values incl. wrap-around); operations Push/Pop/Len/IsEmpty/IsFull; every interleaving of the atomic steps with at most 2 preemptions; happens-before race check on every plain access",
+               "thorough": "capacities 2 and 4 with 2x2 and 3x1 at 2 preemptions, then 2x3 and 3x2 operations, PushWait(0)/PopWait(0) included, 4 preemptions for 2x2 near the counter wrap"},
+    "outside": ["more goroutines/operations/preemptions", "PushWait/PopWait with negative or positive timeout under contention (spinning/ticker)", "capacities above 4", "weak-memory effects (Go atomics are sequentially consistent)"],
+    "assumptions": ["sync/atomic operations are sequentially consistent and are the only scheduling points", "values are distinct constants (data independence of the generic ring)", "VerifSyncRingAt builds exactly the invariant states (checked inductively in C10)"],
+    "level_text": "Bounded model checking of the real SyncRing under a controlled scheduler: every schedule of the atomic operations within the preemption bound, from every capacity/rotation/fill and (in-package variant) from every absolute counter value decided symbolically by the solver (the ticket comparisons pos != seq, pos+1 != seq, l > cap are where wrap-around bugs live); each schedule is checked for linearizability to a bounded FIFO, conservation, progress, the Len range, quiescent exactness, data races and deadlock.",
+    "level_note": "Trusted: go/ssa, gosym scheduler/race detector, z3, the overlay constructor. Counterexamples are replayed natively through the atomic/Gosched shim in the recorded order.",
+}
